@@ -62,6 +62,10 @@ type FloatV struct {
 	kind int
 	c    float64
 	a, b *Term
+	// for a concrete value that came from dividing two integers: the exact rational qa/qb (qb != 0).
+	// Further float arithmetic uses c (IEEE semantics); comparisons with symbolic integer expressions
+	// use the rational, which agrees with IEEE for operands below 2^26 (DESIGN §2.4).
+	qa, qb int64
 }
 
 const (
